@@ -361,6 +361,34 @@ class Harness:
                 except BaseException:  # noqa
                     pass
             report = {'file': 'none', 'func': 'after_finish', 'line': 0, 'stack': []}
+        if fault == 'term_idle':
+            # a persistent worker that has answered everything and sits in its blocking receive; the caller is patient
+            # (timeout=None): the request must still reach the child and end it
+            t1 = time.time()
+            while 'item %d ret' % items not in _marks(mpath) and time.time() - t1 < 8:
+                time.sleep(0.01)
+            time.sleep(0.5)
+            box = {}
+
+            def _term():
+                try:
+                    box['r'] = w.terminate(timeout=None)
+                except BaseException as e:  # noqa
+                    box['e'] = type(e).__name__
+            th = threading.Thread(target=_term, daemon=True)
+            t1 = time.time()
+            th.start()
+            th.join(10)
+            obs['term_s'] = round(time.time() - t1, 2)
+            if th.is_alive():
+                term_ret = 'hung'
+                _kill_pid(pid)
+                th.join(5)
+            elif 'e' in box:
+                term_ret = 'raised:' + box['e']
+            else:
+                term_ret = 'T' if box['r'] is True else 'F' if box['r'] is False else 'other'
+            report = {'file': 'persistent.py', 'func': 'idle_in_recv', 'line': 0, 'stack': [['persistent.py', 'do_work', 0]]}
         obs['bystander'] = bystander
         early_stream = None
         if pers and case.get('consumer') == 'nowait':
@@ -824,6 +852,8 @@ def _scn(case, where, marks=(), ev=None):
          'target_finished': 'T' if any(m in ('ret', 'raise') for m in marks) else 'F',
          'in_finally': 'F', 'in_try': 'F', 'in_work': 'F', 'region': 'none', 'has_finally': 'T' if (not case.get('persistent') and case.get('ending') in ('ret', 'exc', 'slowfin')) else 'F'}
     s['ending'] = {'slow': 'ret', 'slowfin': 'ret', 'linger': 'ret', 'unreb2': 'unreb'}.get(s['ending'], s['ending'])
+    if s['fault'] == 'term_idle':
+        s['fault'] = 'pause'                   # a graceful request that reaches a child blocked in its receive
     if where:
         s['landed'] = 'T'
         s['file'], s['func'], s['line'] = where.get('file', 'none'), where.get('func', 'none'), where.get('line', 0)
